@@ -9,6 +9,15 @@ dictionary.  It holds initially and is preserved by every request (`inv_step`).
 namespace MpfVerif.C11
 open MpfVerif.Player
 
+/-- the pointer invariant holds after every history from power-up (so `frame` / `frame_run` apply to every reachable
+state): the game mode's devices point nowhere or into the dictionary of the player who is up. -/
+theorem pointer_invariant (c : Cfg) (ops : List Op) : Inv (run c {} ops) := by
+  have : ∀ (s : St), Inv s → Inv (run c s ops) := by
+    induction ops with
+    | nil => exact fun s h => h
+    | cons op rest ih => exact fun s h => ih _ (inv_step c s op h)
+  exact this {} ⟨Or.inl rfl, fun h => absurd rfl h⟩
+
 /-- **frame**: any request — variable set/add, counter hit, add player, ball drain with or without extra ball — leaves
 the whole dictionary (variables *and* stored device state) of every player who is not up before or after it unchanged. -/
 theorem frame (c : Cfg) (s : St) (op : Op) (h : Inv s) (q : Nat) (hq : q < s.players.length)
